@@ -335,13 +335,13 @@
 		}
 	}
 
-	/// @ob csr.refusal.none @props C07 @kind forall @tier quick @timeout 900 @bound "no unsupported field set; other fields empty" @fns rcgen::CertificateParams::serialize_request_with_attributes
+	/// @ob csr.refusal.none @props C07 @kind forall @tier quick @timeout 900 @replay csr_none @bound "no unsupported field set; other fields empty" @fns rcgen::CertificateParams::serialize_request_with_attributes
 	#[kani::proof]
 	#[kani::unwind(12)]
 	#[kani::stub(std::hash::RandomState::new, fixed_random_state)]
 	fn csr_refusal_none() { refusal_check(bare_params(), false); }
 
-	/// @ob csr.refusal.serial @props C07 @kind forall @tier quick @timeout 900 @bound "serial number of 2 symbolic bytes set, alone" @fns rcgen::CertificateParams::serialize_request_with_attributes
+	/// @ob csr.refusal.serial @props C07 @kind forall @tier quick @timeout 900 @replay csr_serial @mem 24 @bound "serial number of 2 symbolic bytes set, alone" @fns rcgen::CertificateParams::serialize_request_with_attributes
 	#[kani::proof]
 	#[kani::unwind(12)]
 	#[kani::stub(std::hash::RandomState::new, fixed_random_state)]
@@ -352,7 +352,7 @@
 		refusal_check(p, true);
 	}
 
-	/// @ob csr.refusal.is_ca @props C07 @kind forall @tier quick @timeout 900 @bound "CA flag: ExplicitNoCa / Ca(Unconstrained) / Ca(Constrained(n)) for all n, alone" @fns rcgen::CertificateParams::serialize_request_with_attributes
+	/// @ob csr.refusal.is_ca @props C07 @kind forall @tier quick @timeout 900 @replay csr_is_ca @mem 24 @bound "CA flag: ExplicitNoCa / Ca(Unconstrained) / Ca(Constrained(n)) for all n, alone" @fns rcgen::CertificateParams::serialize_request_with_attributes
 	#[kani::proof]
 	#[kani::unwind(12)]
 	#[kani::stub(std::hash::RandomState::new, fixed_random_state)]
@@ -364,7 +364,7 @@
 		refusal_check(p, true);
 	}
 
-	/// @ob csr.refusal.name_constraints @props C07 @kind forall @tier quick @timeout 900 @bound "name constraints present (both lists empty), alone" @fns rcgen::CertificateParams::serialize_request_with_attributes
+	/// @ob csr.refusal.name_constraints @props C07 @kind forall @tier quick @timeout 900 @replay csr_nc @bound "name constraints present (both lists empty), alone" @fns rcgen::CertificateParams::serialize_request_with_attributes
 	#[kani::proof]
 	#[kani::unwind(12)]
 	#[kani::stub(std::hash::RandomState::new, fixed_random_state)]
@@ -374,7 +374,7 @@
 		refusal_check(p, true);
 	}
 
-	/// @ob csr.refusal.crl_dp @props C07 @kind forall @tier quick @timeout 900 @bound "one CRL distribution point without URIs, alone" @fns rcgen::CertificateParams::serialize_request_with_attributes
+	/// @ob csr.refusal.crl_dp @props C07 @kind forall @tier quick @timeout 900 @replay csr_crldp @bound "one CRL distribution point without URIs, alone" @fns rcgen::CertificateParams::serialize_request_with_attributes
 	#[kani::proof]
 	#[kani::unwind(12)]
 	#[kani::stub(std::hash::RandomState::new, fixed_random_state)]
@@ -384,7 +384,7 @@
 		refusal_check(p, true);
 	}
 
-	/// @ob csr.refusal.aki @props C07 @kind forall @tier quick @timeout 900 @bound "authority key identifier flag set, alone" @fns rcgen::CertificateParams::serialize_request_with_attributes
+	/// @ob csr.refusal.aki @props C07 @kind forall @tier quick @timeout 900 @replay csr_aki @bound "authority key identifier flag set, alone" @fns rcgen::CertificateParams::serialize_request_with_attributes
 	#[kani::proof]
 	#[kani::unwind(12)]
 	#[kani::stub(std::hash::RandomState::new, fixed_random_state)]
